@@ -70,6 +70,7 @@ def one_case(rng, tier):
 
 
 def check_case(case, counters, sets):
+    case.setdefault('_event_cap', 20000)
     ar = asyncrun.run_async(case)
     capped = ar.stop in ('iter-cap', 'vt-cap', 'watchdog')      # the safety clauses are still decidable on the prefix
     viols, seen = [], set()
@@ -118,40 +119,61 @@ def check_case(case, counters, sets):
     return ar, viols
 
 
+THREADED_CHILD = r"""
+import json, os, sys, time
+sys.path.insert(0, os.environ['STREAMZ_SRC'])
+sys.path.insert(1, '/verif')
+case = json.loads(sys.argv[1])
+from streamz import Stream
+from vf.vloop import private_plain_loop
+src = Stream()
+node = src.latest()
+got = []
+ms = case['sink_ms'] / 1000.0
+def consumer(x):
+    if ms:
+        time.sleep(ms)
+    got.append(x)
+node.sink(consumer)
+n = case['n']
+with private_plain_loop():
+    for x in range(n):
+        src.emit(x, asynchronous=True)
+        g = case['gaps'][x % len(case['gaps'])]
+        if g:
+            time.sleep(g / 1000.0)
+t0 = time.time()
+while not (got and got[-1] == n - 1) and len(got) < 200 and time.time() - t0 < 8:
+    time.sleep(0.02)
+time.sleep(0.05)
+print('RESULT ' + json.dumps(got[:200]), flush=True)
+os._exit(0)
+"""
+
+
 def check_threaded(case, counters, sets):
     """latest in a blocking-mode pipeline (loop in the background thread), fed from the caller's thread without hopping onto
     the loop (emit(x, asynchronous=True)): update() then runs on a thread that is not the loop's, and the forwarding
-    coroutine has to be woken across threads.  Real time; verdict on the delivered sequence only."""
-    import time
-    from streamz import Stream
-    from ..vloop import private_plain_loop
-    src = Stream()
-    node = src.latest()
-    got = []
-    ms = case['sink_ms'] / 1000.0
-
-    def consumer(x):
-        if ms:
-            time.sleep(ms)
-        got.append(x)
-    sk = node.sink(consumer)
+    coroutine has to be woken across threads.  Real time; verdict on the delivered sequence only.  Runs in a child process:
+    a forwarding loop that spins (a slot that is never cleared) would otherwise hog this process for good."""
+    import json
+    import os
+    import subprocess
+    import sys
     n = case['n']
-    with private_plain_loop():
-        for x in range(n):
-            src.emit(x, asynchronous=True)
-            g = case['gaps'][x % len(case['gaps'])]
-            if g:
-                time.sleep(g / 1000.0)
-    # the verdict is on what the node settles at: wait for the newest element (bounded), not for a fixed quiet period
-    t0 = time.time()
-    while not (got and got[-1] == n - 1) and time.time() - t0 < 8:
-        time.sleep(0.02)
-    time.sleep(0.05)
-    sk.destroy()
+    try:
+        r = subprocess.run([sys.executable, '-c', THREADED_CHILD, json.dumps(case)], capture_output=True, timeout=60,
+                           env=dict(os.environ, STREAMZ_SRC=os.environ.get('STREAMZ_SRC', '/repo')))
+    except subprocess.TimeoutExpired:
+        return None
+    line = [ln for ln in r.stdout.decode('utf8', 'replace').splitlines() if ln.startswith('RESULT ')]
+    if not line:
+        return None
+    got = json.loads(line[-1][7:])
     viols = []
     counters['threaded_runs'] = counters.get('threaded_runs', 0) + 1
     if any(b <= a for a, b in zip(got, got[1:])) or any(x not in range(n) for x in got):
-        viols.append({'key': 'C14:not-a-subsequence@latest-fed-from-another-thread', 'what': 'sent 0..%d, delivered %s' % (n - 1, got), 'case': case})
+        viols.append({'key': 'C14:not-a-subsequence@latest-fed-from-another-thread', 'what': 'sent 0..%d, delivered %s' % (n - 1, got[:40]), 'case': case})
     elif not got or got[-1] != n - 1:
         viols.append({'key': 'C14:lost-final-element@latest-fed-from-another-thread',
                       'what': 'sent 0..%d from the caller thread, input stopped, 8 s later: delivered %s' % (n - 1, got), 'case': case})
@@ -165,8 +187,12 @@ def run_shard(seed, tier, shard, nshards):
     for k in range(30 if tier == 'thorough' else 3):
         case = {'threaded': True, 'n': rng.randrange(2, 10), 'sink_ms': rng.choice([0, 2, 10, 30]),
                 'gaps': [rng.choice([0, 0, 1, 5, 20]) for _ in range(3)]}
-        out['violations'].extend(check_threaded(case, out['counters'], out['sets']))
+        v = check_threaded(case, out['counters'], out['sets'])
         out['evaluations'] += 1
+        if v is None:
+            out['inconclusive'].append('threaded case %d: child gave no result' % k)
+            continue
+        out['violations'].extend(v)
         out['keys'].append(progs.prog_key(case, None))
     for k in range(n_cases(tier)):
         case = one_case(rng, tier)
@@ -185,6 +211,6 @@ def run_shard(seed, tier, shard, nshards):
 
 def replay(case):
     if case.get('threaded'):
-        return check_threaded(case, {}, {})
+        return check_threaded(case, {}, {}) or []
     _, viols = check_case(case, {}, {})
     return viols or []
